@@ -37,6 +37,8 @@ def run(chk):
     common.fun_stage(chk, 'time-of-trashing', 'timed', 40 if quick else 600)
     common.fun_stage(chk, 'custom-dir', 'putrb', 25 if quick else 300, {'td': 'c'})
     common.fun_stage(chk, 'custom-dir-through-link', 'putrb', 25 if quick else 300, {'td': 'clink'})
+    # a --trash-dir named like a volume trash directory (.Trash-$uid) below an ordinary directory of the volume
+    common.fun_stage(chk, 'custom-dir-named-like-a-volume-trash', 'putrb', 15 if quick else 200, {'td': 'cvol'})
     ap = alphabet_paths()
     per = 16
     chunks = [ap[i:i + per] for i in range(0, len(ap), per)]
